@@ -251,6 +251,12 @@ func runC06(c *sim.Ctx) *sim.Violation {
 		if got.Kind == "shape" {
 			return sim.V(fmt.Sprintf("C06/%s/packet-and-error", typ), "%s", desc())
 		}
+		if got.Kind == "error" && errors.Is(got.Err, io.EOF) {
+			// every byte of this frame was on the stream (and more frames or bytes may
+			// follow): io.EOF is what FOLLOWS the last frame, a reading loop that runs
+			// "until io.EOF" would stop here and drop the rest
+			return sim.V(fmt.Sprintf("C06/%s/rejection-reads-as-end-of-stream", typ), "%s\nthe error satisfies errors.Is(err, io.EOF) although the frame was complete on the stream", desc())
+		}
 	}
 	if r.Closed {
 		return sim.V("C06/sequence/the-reader-was-closed", "ReadPacket closed the stream it was reading from (frames: %v)", kinds)
